@@ -62,6 +62,10 @@ func init() {
 	reg("R-READAT-SPEC", "Both RWManager.ReadAt implementations, evaluated from their SSA form on every small combination of region size, offset and buffer length: a read inside the region (including one that ends exactly at its end, and the empty read at the end) returns all bytes with a nil error; a read that runs past the end returns what is there with nil or io.EOF.", ruleReadAtSpec)
 	reg("R-HINTKEY", "Hint.key of a key/value record: the commit-time literal and the replay-time literal hold the same recipe, or (sparse mode, where they differ) no function on a read path of that index loads the field.", ruleHintKey)
 	reg("R-INSERT-TOTAL", "(*BPTree).Insert returns a nil error on every path (interprocedurally): Commit discards that error for records already logged while the replay in Open fails on it.", ruleInsertTotal)
+	reg("R-COMMITSET-MONO", "DB.committedTxIds only grows while the database is open: no delete from it anywhere, no replacement of the map on the commit or merge path (a transaction's records can lie in several segments).", ruleCommitSetMono)
+	reg("R-CONSTINDEX", "An exported function that addresses a constant element of one of its slice parameters (variadic members, keys) does so only under a guard establishing that the parameter is long enough.", ruleConstIndex)
+	reg("R-SLICE-LOW", "Every slice expression whose start is computed from an integer argument of its function is reached only where that start is known to be >= 0 (a test of the value, a clamp, or lengths and non-negative constants only).", ruleSliceLow)
+	reg("R-NEGATE", "An exported function of the main package negates an integer argument only where a lower bound of that argument is established (math.MinInt64 does not survive negation).", ruleNegate)
 	reg("R-NEWEST", "Sparse-mode merges are newest-wins: SortFID comparators order by descending fID and the sorted slice is the one searched; the merge map keeps the first occurrence of a key; memory results are appended before disk results.", ruleNewestWins)
 	reg("R-COMMITTED-READ", "Every non-nil entry Get can return is dominated by a committed-transaction test (DB.committedTxIds, ActiveCommittedTxIdsIdx.Find or FindTxIDOnDisk) or produced by a function with that property; the sparse-mode scans consult the committed-transaction index.", ruleCommittedRead)
 	reg("R-COUNT", "Every counter that is compared with an offset/limit parameter in the cone of PrefixScan/PrefixSearchScan is incremented only at points dominated by the tombstone and expiry tests; limits applied to len() use a list of live entries.", ruleCount)
